@@ -251,11 +251,34 @@ fn gen_case(seed: u64, tier: Tier, small: Option<u64>) -> Case {
 				}),
 			};
 			cmds.push((at, cmd));
+			// a loop-region change and a seek issued between the same two callbacks (the order in
+			// which the two take effect is not documented: run_case keeps the pair only when both
+			// orders give the same transport)
+			if rng.chance(0.3) {
+				let second = match cmd {
+					Cmd::SetLoop(_) => Cmd::SeekTo(rng.usize_below(n + 3)),
+					_ => Cmd::SetLoop(if rng.chance(0.3) {
+						None
+					} else {
+						let a = rng.usize_below(n + 1);
+						Some((a, if rng.chance(0.4) { None } else { Some(rng.usize_below(n + 2)) }))
+					}),
+				};
+				cmds.push((at, second));
+			}
 		}
 		cmds.sort_by_key(|c| c.0);
-		// at most one command per gap (several of different kinds in one gap
-		// are applied in a fixed internal order that the API does not document)
-		cmds.dedup_by_key(|c| c.0);
+		// per gap at most one loop-region change and at most one seek (commands of one kind
+		// share a mailbox; two seeks of different kinds do not commute)
+		let mut kept: Vec<(usize, Cmd)> = Vec::new();
+		for (at, cmd) in cmds {
+			let is_loop = matches!(cmd, Cmd::SetLoop(_));
+			if kept.iter().any(|(a, c)| *a == at && matches!(c, Cmd::SetLoop(_)) == is_loop) {
+				continue;
+			}
+			kept.push((at, cmd));
+		}
+		cmds = kept;
 	}
 	Case {
 		len,
@@ -376,17 +399,56 @@ pub fn run_case(case: &Case) -> CaseResult {
 
 	for (ci, chunk) in case.chunks.iter().enumerate() {
 		// gameplay side: commands issued before this callback
-		let mut pending: Option<Cmd> = None;
+		let mut pending: Vec<Cmd> = Vec::new();
 		while let Some((at, cmd)) = cmd_iter.peek() {
 			if *at <= ci {
-				pending = Some(*cmd);
+				let is_loop = matches!(cmd, Cmd::SetLoop(_));
+				if !pending.iter().any(|c| matches!(c, Cmd::SetLoop(_)) == is_loop) {
+					pending.push(*cmd);
+				}
 				cmd_iter.next();
 			} else {
 				break;
 			}
 		}
-		if let Some(cmd) = pending {
+		// reference step for one command; true if it was a seek that took effect
+		let apply = |tr: &mut RefTransport, cmd: Cmd, ref_stopped: bool| -> bool {
 			match cmd {
+				Cmd::SetLoop(l) => {
+					tr.looped = RefTransport::norm_loop(l, n);
+					false
+				}
+				Cmd::SeekTo(_) | Cmd::SeekBy(_) => {
+					if ref_stopped {
+						// Stopped is final
+						return false;
+					}
+					let target = match cmd {
+						Cmd::SeekTo(i) => i,
+						// relative to the transport's current position
+						Cmd::SeekBy(d) => (tr.pos as i64 + d).max(0) as usize,
+						_ => unreachable!(),
+					};
+					tr.seek(target);
+					true
+				}
+			}
+		};
+		if pending.len() == 2 {
+			// the pair is only kept when the two orders of application agree
+			let (mut a, mut b) = (tr.clone(), tr.clone());
+			apply(&mut a, pending[0], ref_stopped);
+			apply(&mut a, pending[1], ref_stopped);
+			apply(&mut b, pending[1], ref_stopped);
+			apply(&mut b, pending[0], ref_stopped);
+			if (a.pos, a.playing, a.looped) != (b.pos, b.playing, b.looped) {
+				pending.truncate(1);
+			} else {
+				res.hit("loop_and_seek_in_one_period");
+			}
+		}
+		for cmd in &pending {
+			match *cmd {
 				Cmd::SeekTo(i) => handle.seek_to(i as f64 / case.sound_rate as f64 + 0.25 / case.sound_rate as f64),
 				Cmd::SeekBy(d) => handle.seek_by((d as f64 + 0.25) / case.sound_rate as f64),
 				Cmd::SetLoop(l) => handle.set_loop_region(l.map(|(a, b)| {
@@ -406,41 +468,22 @@ pub fn run_case(case: &Case) -> CaseResult {
 			res.fail(Violation::new("panic", format!("panic: {}", monitor::panic_signature(&p)), format!("on_start_processing at chunk {ci}: {p}")));
 			break;
 		}
-		// reference applies the command at the same point
-		if let Some(cmd) = pending {
+		// reference applies the commands at the same point
+		for cmd in &pending {
 			res.hit("commands_applied");
-			match cmd {
-				Cmd::SetLoop(l) => {
-					tr.looped = RefTransport::norm_loop(l, n);
+			if apply(&mut tr, *cmd, ref_stopped) {
+				// the sought frame enters the window at once
+				let (f, real) = fetch(&tr);
+				window.copy_within(1.., 0);
+				window[3] = f;
+				if real {
+					since_real = 0;
+				} else {
+					since_real += 1;
 				}
-				Cmd::SeekTo(_) | Cmd::SeekBy(_) => {
-					if ref_stopped {
-						// Stopped is final
-					} else {
-						let target = match cmd {
-							Cmd::SeekTo(i) => i,
-							Cmd::SeekBy(d) => {
-								// relative to the transport's current position
-								let cur = tr.pos as i64;
-								(cur + d).max(0) as usize
-							}
-							_ => unreachable!(),
-						};
-						tr.seek(target);
-						// the sought frame enters the window at once
-						let (f, real) = fetch(&tr);
-						window.copy_within(1.., 0);
-						window[3] = f;
-						if real {
-							since_real = 0;
-						} else {
-							since_real += 1;
-						}
-						resync_after = Some(3);
-						post_seek = true;
-						res.hit("seeks");
-					}
-				}
+				resync_after = Some(3);
+				post_seek = true;
+				res.hit("seeks");
 			}
 		}
 		let state_before = handle.state();
@@ -647,10 +690,11 @@ impl Check for C04 {
 		CheckInfo {
 			id: "C04",
 			level: "exploration",
-			rule: "each case = sound length, slice, start position, loop region (incl. end == length, empty, start inside/after the loop), reverse, playback rate (+/-, 1, 0.5, 2, irrational), sound/device rate pair, chunk-size sequence, and optional seek_to / seek_by / set_loop_region commands at chunk boundaries; the thorough tier adds the complete small-scope space (length <= 6 x slice x start x loop x reverse) as a workload source; non-trivial = non-silent output; distinct = hash of (state after each chunk, loop wraps, end reached, direction, rate class, length class)",
+			rule: "each case = sound length, slice, start position, loop region (incl. end == length, empty, start inside/after the loop), reverse, playback rate (+/-, 1, 0.5, 2, irrational), sound/device rate pair, chunk-size sequence, and optional seek_to / seek_by / set_loop_region commands at chunk boundaries (a loop-region change and a seek may share one gap when both orders of application give the same transport); the thorough tier adds the complete small-scope space (length <= 6 x slice x start x loop x reverse) as a workload source; non-trivial = non-silent output; distinct = hash of (state after each chunk, loop wraps, end reached, direction, rate class, length class)",
 			assumptions: vec![
 				"the sound is driven directly through the public Sound trait with MockInfoBuilder, the way Track::process drives it".into(),
 				"the reference accumulates rate x source-rate x dt in f64 exactly as the property states; interpolation is compared with tolerance 2e-5 x window magnitude, bit-exactly at rate 1 with equal rates".into(),
+				"the order in which commands of different kinds written between the same two callbacks take effect is not part of the property (each kind has its own mailbox; the issue order does not reach the audio thread): pairs whose two orders differ are not generated".into(),
 				"after a seek the audio is not compared until the 4-frame window has refilled; from then on rate-1 cases are compared by decoded frame index within +-1 frame, resampled ones by the safety oracles only (slice, finiteness, silence when Stopped, bounded time to Stopped)".into(),
 			],
 			components: vec![
